@@ -81,7 +81,7 @@ structure Univ where
   pairs   : List Pair := []
   classes : List Str := []
   ids     : List Str := []
-  addrs   : List Addr := []
+  addrs   : List Addr := ["mod:NFT", "mod:MT"]
   mclasses : List Str := []
   mids    : List Str := []
 
@@ -157,10 +157,10 @@ def stepLine (st : St) (line : String) : St × String :=
   match toks with
   | ["reset"] => ({}, "reset")
   | ["tx", c, "recv", seq, src, dst, relay, port, data, proof, h, et] =>
-    match parsePacket seq src dst relay port data, parseProof proof, h.toNat?, unhexS et with
-    | some p, some π, some h, some et =>
-      runOp st c (st.u.addPacket p) (.tx c (.recvPacket p π h et))
-    | _, _, _, _ => bad
+    match parsePacket seq src dst relay port data, parseProof proof, h.toNat? with
+    | some p, some π, some h =>
+      runOp st c (st.u.addPacket p) (.tx c (.recvPacket p π h (dash et)))
+    | _, _, _ => bad
   | ["tx", c, "ack", seq, src, dst, relay, port, data, ack, proof, h] =>
     match parsePacket seq src dst relay port data, parseData ack, parseProof proof, h.toNat? with
     | some p, some a, some π, some h =>
